@@ -35,7 +35,10 @@ KINDS = ['hit', 'ctx', '404', '405', 'fall', 'exc', 'redir', 'hit2', 'app2', 'q4
 # further kinds, explored in the pairs listed in EXTRA_PAIRS: star = a route whose `*` binding is left empty and
 # whose endpoint appends to the list it was given; e404h / e405j = error responses negotiated for different Accept
 # headers.  For these pairs every execution is preceded by one sequential request of the first thread's kind.
-EXTRA_KINDS = ['star', 'e404h', 'e405j', 'cklogin', 'cklogout', 'tabget', 'tabpost', 'jsonpa', 'jsonpb', 'jsonp0']
+EXTRA_KINDS = ['star', 'e404h', 'e405j', 'cklogin', 'cklogout', 'tabget', 'tabpost', 'jsonpa', 'jsonpb', 'jsonp0',
+               'gza', 'gzb', 'sta', 'stb']
+# gza / gzb: two compressible bodies through one GzipMiddleware instance (compared after decompression)
+# sta / stb: two files, both in the second directory of one StaticApplication's search path
 # jsonpa / jsonpb / jsonp0: one route rendered by one JSONPRender, asked for with callback A, callback B, none
 # tabget / tabpost: a GET and a POST route on one path, different endpoints, both rendered as an HTML table by one
 # BasicRender instance (the page is headed by the endpoint's name and docstring)
@@ -44,13 +47,31 @@ EXTRA_KINDS = ['star', 'e404h', 'e405j', 'cklogin', 'cklogout', 'tabget', 'tabpo
 EXTRA_PAIRS = [('star', 'star'), ('star', 'hit'), ('star', '404'), ('e404h', 'e405j'), ('e405j', 'e404h'),
                ('e404h', 'e404h'), ('e404h', '404'), ('e405j', 'exc'), ('e405j', 'q405'),
                ('cklogout', 'cklogin'), ('cklogin', 'cklogout'), ('cklogin', 'cklogin'),
-               ('tabget', 'tabpost'), ('tabpost', 'tabget'), ('jsonpa', 'jsonpb'), ('jsonpa', 'jsonp0'), ('jsonp0', 'jsonpb')]
+               ('tabget', 'tabpost'), ('tabpost', 'tabget'), ('jsonpa', 'jsonpb'), ('jsonpa', 'jsonp0'), ('jsonp0', 'jsonpb'),
+               ('gza', 'gzb'), ('gza', 'gza'), ('sta', 'stb')]
 # app2: served by a second Application; q405/qpost: a path with a GET-only and a POST-only route
 
 
 def deadline_passed():
     d = os.environ.get('VERIF_DEADLINE')
     return bool(d) and time.time() > float(d)
+
+
+_STATIC = []
+
+
+def static_dirs():
+    if not _STATIC:
+        import atexit, shutil, tempfile
+        root = tempfile.mkdtemp(prefix='c12-static-')
+        atexit.register(shutil.rmtree, root, True)
+        for d in ('d0', 'd1'):
+            os.mkdir(os.path.join(root, d))
+            _STATIC.append(os.path.join(root, d))
+        for f in ('fa.txt', 'fb.txt'):
+            with open(os.path.join(root, 'd1', f), 'w') as fh:
+                fh.write('content of ' + f)
+    return _STATIC
 
 
 class World(object):
@@ -143,10 +164,16 @@ class World(object):
         def ep_jsonp(val, request):
             return {'who': val, 'tok': request.headers.get('X-Tok'), 'pad': list(range(8))}
 
+        from clastic.middleware import GzipMiddleware
+        from clastic.static import StaticApplication
+
+        def ep_gz(x, val):
+            return Response(('%s|%s|' % (x, val)) * 150, mimetype='text/plain')
+
         def docs(rest, val):
             rest.append('index.%s' % val)
             return Response('docs|' + '/'.join(rest))
-        self.harness_funcs = [ep_ck, ep_tab_get, ep_tab_post, ep_jsonp, docs, Stamp.request, PerReq.request, PerReq.endpoint, ep, ep_ctx, render, nb, second, boom, second_q]
+        self.harness_funcs = [ep_gz, ep_ck, ep_tab_get, ep_tab_post, ep_jsonp, docs, Stamp.request, PerReq.request, PerReq.endpoint, ep, ep_ctx, render, nb, second, boom, second_q]
         from werkzeug.wrappers import Request
 
         class RecordingRequest(Request):
@@ -162,7 +189,9 @@ class World(object):
         self.app = App([GET('/a/<x>', ep), ('/b/<x>/', ep), ('/c/<x>', ep_ctx, render), ('/n', nb), ('/n', second),
                                 ('/boom', boom), POST('/p', lambda: Response('p')), ('/d/<x:int>', ep),
                                 GET('/q/<x>', ep), POST('/q/<x>', second_q), ('/docs/<rest*>', docs), ('/jsonp', ep_jsonp, jsonp_render), GET('/tab', ep_tab_get, tab_render), POST('/tab', ep_tab_post, tab_render),
-                                Route('/ck', ep_ck, middlewares=[SignedCookieMiddleware(secret_key=b'c12-fixed-key')])],
+                                Route('/ck', ep_ck, middlewares=[SignedCookieMiddleware(secret_key=b'c12-fixed-key')]),
+                                Route('/gz/<x>', ep_gz, middlewares=[GzipMiddleware()]),
+                                ('/static', StaticApplication(list(static_dirs())))],
                                middlewares=[Stamp(), PerReq()], debug=debug)
 
         self.app2 = App([GET('/z/<x>', ep)], middlewares=[Stamp(), PerReq()], debug=debug)
@@ -172,6 +201,10 @@ class World(object):
         h = {'X-Tok': tok, 'Host': tok + '.example'}       # every request names its own host
         if kind == 'star':
             return ('/docs', 'GET', q, h)
+        if kind in ('gza', 'gzb'):
+            return ('/gz/' + tok + kind[-1], 'GET', q, dict(h, **{'Accept-Encoding': 'gzip'}))
+        if kind in ('sta', 'stb'):
+            return ('/static/f%s.txt' % kind[-1], 'GET', q, h)
         if kind in ('jsonpa', 'jsonpb', 'jsonp0'):
             return ('/jsonp', 'GET', q + {'jsonpa': '&callback=cbA', 'jsonpb': '&callback=cbB', 'jsonp0': ''}[kind], h)
         if kind == 'tabget':
@@ -196,6 +229,12 @@ class World(object):
     def serve(self, kind, tok):
         path, method, q, h = self.request_for(kind, tok)
         res = wsgi.call(self.app2 if kind == 'app2' else self.app, path, method, query=q, headers=h)
+        if res.headers and res.header('Content-Encoding') == 'gzip':
+            import gzip as _gz
+            try:
+                res.body = b'gzip:' + _gz.decompress(res.body)      # the stream itself carries a timestamp
+            except Exception as e:
+                res.body = b'corrupt gzip stream: ' + repr(e).encode() + res.body[:20]
         return (res.status, res.body, res.header('Location'), res.header('X-Stamp'), res.header('X-Ep'),
                 res.header('Allow'), repr(res.raised) if res.raised else None, res.header('Content-Type'),
                 tuple(res.header_all('Set-Cookie')) if res.headers else None)
@@ -345,7 +384,7 @@ def explore_combo(acc, w, kinds, bound, part):
 
 # pairs explored on a *cold* application: every execution starts from a freshly constructed World, so whatever the
 # framework sets up lazily on the first request of a route is inside the explored window
-COLD_PAIRS = [('hit', 'hit'), ('hit', '404'), ('ctx', 'exc'), ('e404h', 'e404h'), ('star', 'star')]
+COLD_PAIRS = [('hit', 'hit'), ('hit', '404'), ('ctx', 'exc'), ('e404h', 'e404h'), ('star', 'star'), ('sta', 'stb')]
 
 
 def generated_codes(app):
